@@ -141,6 +141,19 @@ def run(tier, seed):
             if cids: arg.append(('REPLY', 'Com:' + rng.choice(cids), 'a reply'))
             if not arg: kind = 'open_save'
         jobs.append((b, kind, arg)); meta.append((d, ex))
+    # targeted: an inline insertion at the very start of a story that follows a non-empty story, quoted with the markers of its bold
+    # first run (the insertion point lies on virtual text): it must not slip into the story before
+    for i in range(8 if tier == 'quick' else 80):
+        d = docgen.gen_doc(rng, 'full'); ex = gen_extras(rng)
+        if ex.get('comments_name') and not (d['comments'] or ex.get('force_comments_part')): ex.pop('comments_name')
+        g = docgen.Gen(rng, 'plain'); g.uid = d['next_uid'] + 10
+        mk = lambda txt, f=None: {'t': 'p', 'pid': g.fresh(), 'ppr': 0, 'style': ['N', False], 'nodes': [['run', g.fresh(), f, [['t', txt]]], ['run', g.fresh(), None, [['t', ' and more text %d' % i]]]]}
+        if not any(st['kind'] == 0 for st in d['stories']): d['stories'].insert(0, {'kind': 0, 'blocks': [mk('Header text %d' % i)]})
+        body = [st for st in d['stories'] if st['kind'] == 1][0]; word = 'Opening%d' % i
+        body['blocks'].insert(0, mk(word, [[1, 1]])); d['next_uid'] = g.uid + 1000
+        b = A.build(d, ex)
+        new = ('In short, **%s**' if i % 2 == 0 else 'Intro line\n**%s**') % word      # inline / with a line break (fix D53)
+        jobs.append((b, 'edits', [('**%s**' % word, new, None, None)])); meta.append((d, ex))
     with Pool(core.NPROC, initializer=docrun.impl_init) as pool:
         res = pool.map(work, jobs, chunksize=8)
     mo = core.run_driver('package', [pkg_line(b) for b, _, _ in jobs])
@@ -158,6 +171,15 @@ def run(tier, seed):
             # paragraph properties / styles of the pre-existing paragraphs (aligned by rejecting the session)
             din = A.read(b, table=list(d['rpr_table'])); dout = docrun.canon_session(A.read(ob, table=din['rpr_table']), din)
             back = E.session_reject(dout, din)
+            # stories whose text was not targeted keep exactly their content (tape level: loading coalesces runs in every story)
+            strip = lambda t: re.sub(r'\*\*|__|_|\{[-+=]{2}|[-+=]{2}\}|\{>>.*?<<\}', '', t)
+            stext = lambda st, view: '\n'.join(E.para_texts({'stories': [st]}, view))
+            tg = [strip(e[0]) for e in arg if e[0]]
+            if all(any(t in stext(st, v) for st in din['stories'] for v in ('raw', 'acc')) for t in tg) and not any(e[3] is not None for e in arg):
+                for st_in, st_out in zip(din['stories'], dout['stories']):
+                    if any(t in stext(st_in, v) for t in tg for v in ('raw', 'acc')): continue
+                    if E.tape_nopid({'stories': [st_in]}) != E.tape_nopid({'stories': [st_out]}):
+                        ck.violation('oracle', case, 'the story %s, whose text no edit of the batch targets, changed' % st_in.get('part', '?')); break
             pa = [(p['ppr'], tuple(p['style'])) for p in A.paras(din)]; pb = [(p['ppr'], tuple(p['style'])) for p in A.paras(back)]
             if len(pa) == len(pb) and pa != pb:
                 k = next(i for i in range(len(pa)) if pa[i] != pb[i])
